@@ -103,6 +103,12 @@ QueryTop(s, kk, thr) ==
                 out |-> TopK(c2.cand, kk), full |-> TopK(c2.cand, 0)]
       /\ UNCHANGED <<env, sk, truth, sat>>
 
+\* generate_candidate_set(threshold) called directly: the cache is rebuilt unconditionally
+Generate(s, thr) ==
+  /\ cache' = [cache EXCEPT ![s] = [cand |-> Fresh(s, thr), naddSort |-> sk[s].nadd, thrSort |-> thr]]
+  /\ op' = [name |-> "generate", s |-> s, thr |-> thr]
+  /\ UNCHANGED <<env, sk, truth, sat>>
+
 \* hh[key], Len(key) <= L
 GetItem(s, id) ==
   /\ op' = [name |-> "getitem", s |-> s, k |-> id, out |-> Get(s, id)]
@@ -119,6 +125,7 @@ Next ==
   \/ \E s \in Slots, kk \in QueryKs, thr \in QueryThrs :
         QueryTop(s, kk, IF thr = -1 THEN DefaultThr(s) ELSE NOf(thr))
   \/ \E s \in Slots, id \in Ids : GetItem(s, id)
+  \/ \E s \in Slots, thr \in QueryThrs : QueryKs # {} /\ Generate(s, IF thr = -1 THEN DefaultThr(s) ELSE NOf(thr))
 
 Spec == Init /\ [][Next]_vars
 
